@@ -29,7 +29,7 @@ package fox
 
 //@ func (*node).clone props C03 partial
 //@   requires n != nil
-//@   ensures result != nil && fresh(result) && same(result.key, n.key) && result.route == n.route && len(result.children) == len(n.children) && (len(n.children) > 0 ==> fresh(result.children)) && result.childKeys == n.childKeys
+//@   ensures result != nil && fresh(result) && same(result.key, n.key) && result.route == n.route && len(result.children) == len(n.children) && cap(result.children) == len(n.children) && (len(n.children) > 0 ==> fresh(result.children)) && result.childKeys == n.childKeys
 //@   ensures forall i int :: {result.children[i]} 0 <= i && i < len(n.children) ==> result.children[i] == n.children[i]
 
 //@ func (*node).getEdges props C03 partial
@@ -38,8 +38,8 @@ package fox
 //@   ensures forall i int :: {result[i]} 0 <= i && i < len(n.children) ==> result[i] == n.children[i]
 
 //@ func recreateParentEdge props C03 partial
-//@   requires parent != nil && len(parent.children) >= 1
-//@   ensures len(result) == len(parent.children) - 1 && (len(result) > 0 ==> fresh(result))
+//@   requires safety-parent: parent != nil && len(parent.children) >= 1
+//@   ensures len(result) == len(parent.children) - 1 && cap(result) == len(result) && (len(result) > 0 ==> fresh(result))
 
 //@ func (*node).isLeaf props C02,C03
 //@   requires n != nil
@@ -52,7 +52,7 @@ package fox
 
 //@ -- updateEdge overwrites one slot of n.children: n's children array must be owned by the writer
 //@ func (*node).updateEdge props C03 partial
-//@   requires n != nil && node != nil
+//@   requires safety-nil: n != nil && node != nil
 //@   requires safety-found: len(n.children) > 0
 //@   requires safety-sorted: len(n.children) > 50 ==> sortedBytes(n.childKeys)
 //@   modifies elems(n.children)
@@ -60,7 +60,7 @@ package fox
 //@ -- ---------------------------------------------------------------- tree mutation
 
 //@ -- a node the current write transaction may modify: created (with its children array) since the snapshot point
-//@ pred ownedNode(k *node) = ref(k) >= snapRef && (len(k.children) == 0 || ref(k.children) >= snapRef)
+//@ pred ownedNode(k *node) = ref(k) >= snapRef && (cap(k.children) == 0 || ref(k.children) >= snapRef)
 //@ -- every node in the transaction's cache of already-copied nodes is owned
 //@ pred cacheOK(t *tXn) = snapRef <= nextref && (forall k *node :: {cachedIn[k]} cachedIn[k] < nextref) && (forall k *node :: {cachedIn[k]} t.writable != nil && cachedIn[k] == ref(t.writable) ==> ownedNode(k))
 
@@ -88,7 +88,8 @@ package fox
 //@   ensures t.root == old(t.root) || fresh(t.root)
 
 //@ func (*tXn).copyOnWriteSearch props C03,C02 partial
-//@   requires t != nil && rootNode != nil && cacheOK(t)
+//@   requires t != nil && cacheOK(t)
+//@   requires safety-root: rootNode != nil
 //@   modifies t.writable, t.root, cachedIn
 //@   modifies-since snapRef : E[*node]
 //@   ensures cache: cacheOK(t) && t.writable != nil
@@ -99,3 +100,54 @@ package fox
 //@   loop 1: invariant cacheOK(t)
 //@   loop 1: invariant (p == nil || ownedNode(p)) && (pp == nil || ownedNode(pp)) && (ppp == nil || ownedNode(ppp))
 //@   loop 1: invariant t.root == old(t.root) || (fresh(t.root) && len(t.root) == old(len(t.root)))
+
+//@ func commonPrefix props C02
+//@   ensures len(result) <= len(k1) && len(result) <= len(k2) && result == k1[:len(result)]
+//@   ensures forall i int :: {k1[i]} 0 <= i && i < len(result) ==> k1[i] == k2[i]
+//@   ensures len(result) < len(k1) && len(result) < len(k2) ==> k1[len(result)] != k2[len(result)]
+//@   loop 1: invariant 0 <= i && i <= minLength && minLength <= len(k1) && minLength <= len(k2)
+//@   loop 1: invariant forall j int :: {k1[j]} 0 <= j && j < i ==> k1[j] == k2[j]
+//@   loop 1: decreases minLength - i
+
+//@ func (searchResult).classify props C02 partial
+//@   ensures exact: result == exactMatch <==> (r.charsMatched == len(r.path) && r.charsMatchedInNodeFound == len(r.matched.key))
+//@   ensures range: result == exactMatch || result == incompleteMatchToEndOfEdge || result == incompleteMatchToMiddleOfEdge || result == keyEndMidEdge
+
+//@ func (searchResult).isExactMatch props C02
+//@   requires r.matched != nil
+//@   ensures result <==> (r.charsMatched == len(r.path) && r.charsMatchedInNodeFound == len(r.matched.key))
+
+//@ extern getRouteConflict
+//@ extern newConflictErr
+//@   ensures result != nil
+//@ extern isRemovable
+
+//@ func (*tXn).insert props C03,C02 partial
+//@   requires t != nil && route != nil && cacheOK(t)
+//@   modifies t.root, t.size, t.maxParams, t.depth, t.writable, cachedIn
+//@   modifies-since snapRef : E[*node]
+//@   ensures cache: cacheOK(t)
+//@   ensures size: (result == nil ==> t.size == old(t.size) + 1) && (result != nil ==> t.size == old(t.size))
+
+//@ func (*tXn).update props C03,C02 partial
+//@   requires t != nil && route != nil && cacheOK(t)
+//@   modifies t.root, t.writable, cachedIn
+//@   modifies-since snapRef : E[*node]
+//@   ensures cache: cacheOK(t)
+//@   ensures size: t.size == old(t.size)
+
+//@ func (*tXn).remove props C03,C02 partial
+//@   requires t != nil && cacheOK(t)
+//@   modifies t.root, t.size, t.writable, cachedIn
+//@   modifies-since snapRef : E[*node]
+//@   ensures cache: cacheOK(t)
+//@   ensures size: result1 ==> t.size == old(t.size) - 1 && result0 != nil
+//@   ensures size-miss: !result1 ==> t.size == old(t.size) || t.size == old(t.size) - 1
+
+//@ func (*tXn).truncate props C03,C02 partial
+//@   requires t != nil
+//@   modifies t.root, t.size
+//@   ensures all: len(methods) == 0 ==> t.size == 0 && fresh(t.root)
+//@   ensures fresh-roots: fresh(t.root)
+//@   loop 1: invariant fresh(nr)
+//@   loop 2: invariant fresh(nr#2)
